@@ -85,8 +85,21 @@ def load(repo='/repo', patterns=('./...',), out=None):
     p = subprocess.run(cmd, stdout=subprocess.PIPE, stderr=subprocess.PIPE, env=env)
     if p.returncode != 0:
         raise RuntimeError('gossa failed:\n' + p.stderr.decode()[-4000:])
-    doc = json.loads(p.stdout.decode())
-    return Program(doc)
+    text = p.stdout.decode()
+    doc = json.loads(text)
+    prog = Program(doc)
+    if not os.environ.get('VERIF_NO_ALIGN'):
+        # function literals keep the ordinal they had when the contracts were written (see baseline.closure_renames)
+        from .baseline import closure_renames
+        ren = closure_renames(prog.funcs)
+        if ren:
+            import re
+            keys = sorted(ren, key=len, reverse=True)
+            pat = re.compile('(' + '|'.join(re.escape(k) for k in keys) + r')(?![0-9])')
+            text = pat.sub(lambda m: ren[m.group(1)], text)
+            prog = Program(json.loads(text))
+            prog.closure_renames = ren
+    return prog
 
 
 # ---------------------------------------------------------------- CFG
